@@ -1006,7 +1006,8 @@ func (vc *VC) backEdgeChecks(hb *ssa.BasicBlock, edge Term) {
 		for name, v := range hce.vars {
 			ce.vars[name] = v
 		}
-		t := ce.evalTop(bc.Cond, true)
+		vc.iterationNames(hb, ce)
+		t, wfs := ce.evalWithSides(bc.Cond)
 		if ce.err != nil {
 			vc.unsupp("body_calls %q: %v (back edge from block %d %s)", bc.Text, ce.err, vc.blk.Index, vc.blk.Comment)
 			continue
@@ -1015,7 +1016,7 @@ func (vc *VC) backEdgeChecks(hb *ssa.BasicBlock, edge Term) {
 		if len(bc.Props) > 0 {
 			pr = bc.Props
 		}
-		vc.checkG("body-calls", token.NoPos, "loop "+ls.Key+": "+bc.Text, edge, Eq(Or(reaches...), t.t), pr)
+		vc.checkG("body-calls", token.NoPos, "loop "+ls.Key+": "+bc.Text, edge, Imp(wfs, Eq(Or(reaches...), t.t)), pr)
 	}
 	for _, inv := range ls.Invariants {
 		ce := vc.envAt(hb, vc.cur, sub)
@@ -1287,6 +1288,37 @@ func (vc *VC) typeSwitchNames(ce *cenv, pos token.Pos) {
 		}
 		if t, ok := vc.val[scrut]; ok {
 			ce.vars[id.Name] = cval{t: t, typ: scrut.Type()}
+		}
+	}
+}
+
+// iterationNames binds range_k / range_v (key and value of the current iteration of a map range)
+// and range_e (element of the current iteration of a slice range), independent of the names the
+// source gives them.
+func (vc *VC) iterationNames(hb *ssa.BasicBlock, ce *cenv) {
+	for _, ins := range hb.Instrs {
+		switch x := ins.(type) {
+		case *ssa.Next:
+			r, ok := x.Iter.(*ssa.Range)
+			if !ok {
+				continue
+			}
+			if mt, ok := r.X.Type().Underlying().(*types.Map); ok {
+				if tp, ok := vc.tuple[x]; ok && len(tp) == 3 {
+					ce.vars["range_k"] = cval{t: tp[1], typ: mt.Key()}
+					ce.vars["range_v"] = cval{t: tp[2], typ: mt.Elem()}
+				}
+			}
+		case *ssa.Phi:
+			if x.Comment != "rangeindex" {
+				continue
+			}
+			if rx, ok := ce.vars["range_x"]; ok && rx.typ != nil {
+				if st, ok := rx.typ.Underlying().(*types.Slice); ok {
+					n, srt := vc.e.elemArr(st.Elem())
+					ce.vars["range_e"] = cval{t: vc.eltTerm(st.Elem(), vc.arrIn(ce.heap, n, srt), rx.t, Add(vc.v(x), "1")), typ: st.Elem()}
+				}
+			}
 		}
 	}
 }
